@@ -49,7 +49,6 @@ CheckRec(r) ==
   LET rec == Recs[r]
       ff  == RunFile(rec.lines)
   IN  IF ff.bad # "" THEN PrintT(<<"SKIP", r, ff.bad>>)
-      ELSE IF \E j \in 1..Len(ff.cues) : RunTags(ff.cues[j].toks).stray > 0 THEN PrintT(<<"SKIP", r, "stray_closing_tag">>)
       ELSE /\ Chk(rec.obs.raised = "", r, 0, "reader_raised_" \o rec.obs.raised)
            /\ Chk(rec.obs.none = 0, r, 0, "reader_rejected_file")
            /\ IF rec.obs.raised # "" \/ rec.obs.none = 1 THEN TRUE
